@@ -84,20 +84,20 @@ package cppki
 //@ func detectNewVoters
 //@   trusted
 //@   modifies nothing
-//@ func (*TRC).validateSensitive
-//@   trusted
-//@   modifies nothing
-//@ func (*TRC).validateRegular
-//@   trusted
-//@   modifies nothing
 
 //@ # an update is accepted only as the direct successor of its predecessor: same ISD, same base, serial + 1
 //@ macro succOf(t, p) = ((p).ID.ISD == (t).ID.ISD && (p).ID.Base == (t).ID.Base && (p).ID.Serial + 1 == (t).ID.Serial && (p).NoTrustReset == (t).NoTrustReset && len((t).Votes) >= (p).Quorum)
 //@ func (*TRC).ValidateUpdate
 //@   props C35 C32
+//@   # assumed frame: validateRegular writes only its own bookkeeping map (the engine's loop havoc of map regions is too coarse to show it)
+//@   callmod (*TRC).validateRegular: nothing
 //@   requires trc != nil && certsOK(trc) && (predecessor != nil ==> predecessor.Quorum >= 1)
 //@   modifies nothing
 //@   ensures result1 == nil ==> predecessor != nil && succOf(trc, predecessor) && trc.Quorum >= 1
+//@   # C32: one demanded voter per vote; an update accepted as regular leaves quorum, core and authoritative ASes alone
+//@   ensures result1 == nil ==> (result0.Type == SensitiveUpdate || result0.Type == RegularUpdate) && len(result0.Votes) == len(trc.Votes)
+//@   ensures result1 == nil && result0.Type == RegularUpdate ==> predecessor.Quorum == trc.Quorum && len(predecessor.CoreASes) == len(trc.CoreASes) && len(predecessor.AuthoritativeASes) == len(trc.AuthoritativeASes)
+//@   ensures result1 == nil && result0.Type == RegularUpdate ==> (forall j int :: 0 <= j && j < len(trc.CoreASes) ==> predecessor.CoreASes[j] == trc.CoreASes[j]) && (forall j int :: 0 <= j && j < len(trc.AuthoritativeASes) ==> predecessor.AuthoritativeASes[j] == trc.AuthoritativeASes[j])
 
 //@ # signature checks are not interpreted; vaOK counts the verifyAll calls that succeeded (every demanded certificate
 //@ # has a valid signer info)
@@ -145,3 +145,44 @@ package cppki
 //@   requires len(opts.TRC) == 1
 //@   modifies nothing
 //@   ensures (result == nil) == chainOK(certs, opts.TRC[0])
+
+//@ # ---- C32: the pieces of the update rules that are plain data comparisons
+//@ func equalASes
+//@   props C32
+//@   modifies nothing
+//@   loop 1 invariant 0 <= (rangeindex+1) && (rangeindex+1) <= len(pred) && len(pred) == len(next)
+//@   loop 1 invariant forall j int :: 0 <= j && j < (rangeindex+1) ==> pred[j] == next[j]
+//@   ensures (result == nil) == (len(pred) == len(next) && forall j int :: 0 <= j && j < len(pred) ==> pred[j] == next[j])
+//@ # a sensitive update: every vote index designates a sensitive voting certificate of the predecessor, and the
+//@ # voters demanded to have signed are exactly those certificates, in the order of the votes
+//@ func (*TRC).validateSensitive
+//@   props C32
+//@   requires trc != nil
+//@   modifies nothing
+//@   loop 1 invariant 0 <= (rangeindex+1) && (rangeindex+1) <= len(trc.Votes) && len(voters) == (rangeindex+1)
+//@   loop 1 invariant forall j int :: 0 <= j && j < (rangeindex+1) ==> inmap(predCerts.Sensitive, trc.Votes[j]) && voters[j] == predCerts.Sensitive[trc.Votes[j]]
+//@   ensures result1 == nil ==> len(result0) == len(trc.Votes)
+//@   ensures result1 == nil ==> forall j int :: 0 <= j && j < len(trc.Votes) ==> inmap(predCerts.Sensitive, trc.Votes[j]) && result0[j] == predCerts.Sensitive[trc.Votes[j]]
+//@   ensures result1 != nil ==> exists j int :: 0 <= j && j < len(trc.Votes) && !inmap(predCerts.Sensitive, trc.Votes[j])
+//@ # looking a certificate up by subject in a class of the predecessor: not interpreted (x509 names)
+//@ func (certMap).find
+//@   trusted
+//@   modifies nothing
+//@ # a regular update: quorum, core and authoritative ASes are unchanged, every vote index designates a regular voting certificate of the predecessor, and the voters demanded to
+//@ # have signed are exactly those certificates in the order of the votes. (That no certificate is added or removed
+//@ # and that every replaced voter voted / root acknowledged goes through certMap.find and map sizes: not covered.)
+//@ func (*TRC).validateRegular
+//@   props C32
+//@   nosafety
+//@   requires trc != nil && predecessor != nil
+//@   loop 1 havoc
+//@   loop 2 havoc
+//@   loop 3 havoc
+//@   loop 4 invariant 0 <= (rangeindex+1) && (rangeindex+1) <= len(trc.Votes) && len(voters) == (rangeindex+1)
+//@   loop 4 invariant forall j int :: 0 <= j && j < (rangeindex+1) ==> inmap(predCerts.Regular, trc.Votes[j]) && voters[j] == predCerts.Regular[trc.Votes[j]]
+//@   loop 5 havoc
+//@   ensures result2 == nil ==> predecessor.Quorum == trc.Quorum
+//@   ensures result2 == nil ==> len(predecessor.CoreASes) == len(trc.CoreASes) && (forall j int :: 0 <= j && j < len(trc.CoreASes) ==> predecessor.CoreASes[j] == trc.CoreASes[j])
+//@   ensures result2 == nil ==> len(predecessor.AuthoritativeASes) == len(trc.AuthoritativeASes) && (forall j int :: 0 <= j && j < len(trc.AuthoritativeASes) ==> predecessor.AuthoritativeASes[j] == trc.AuthoritativeASes[j])
+//@   ensures result2 == nil ==> len(result0) == len(trc.Votes)
+//@   ensures result2 == nil ==> forall j int :: 0 <= j && j < len(trc.Votes) ==> inmap(predCerts.Regular, trc.Votes[j]) && result0[j] == predCerts.Regular[trc.Votes[j]]
